@@ -374,3 +374,10 @@ T('C08', 'T1.dbm_model_twin', TWIN_WHAT)
 T('C04', 'T1.dbm_model_twin', TWIN_WHAT, 'thorough')
 T('C09', 'T1.dbm_model_twin', TWIN_WHAT, 'thorough')
 T('C01', 'T1.dbm_model_twin', TWIN_WHAT, 'thorough')
+
+# retry path (Retrier::run) — Engine M
+M('C05', 'M2.retry_bookkeeping', 'retrier_run', 'retry path: a pending appointment is removed only after its receipt (accepted) or its invalid copy (rejected) was stored, exactly one of the two; whoever stores one also removes the pending record', part='bookkeeping')
+M('C05', 'M2.retry_errors_keep_pending', 'retrier_run', 'retry path: connection and subscription errors end the run with an error and never touch the pending record', part='errors_keep_pending')
+M('C14', 'M1.reregister_verify', 'retrier_run', 'the retrier stores a renewed registration (add_update_tower) only on paths on which RegistrationReceipt::verify(&tower_id) returned true', part='reregister_verify')
+PROPS['C05']['bounds'] = PROPS['C05']['bounds'] + '; Retrier::run: one arbitrary iteration over the pending locators, all paths between the reply and the next locator / return'
+PROPS['C05']['outside'] = PROPS['C05']['outside'].replace('the retrier path (Retrier::run), ', '')
